@@ -30,27 +30,40 @@ pub fn drive(tr: &mut Tracer, rng: &mut StdRng, thorough: bool) {
     let fa = forms::all_forms("add");
     let fs = forms::all_forms("sub");
     let fm = forms::all_forms("mul");
-    // form sweeps: a long program in which EVERY overload of + - * meets operands that earlier steps produced, starting from
-    // the special representations (one written 1.00, zero carrying a scale, powers of ten, twins)
-    let specials = [dec(false, "100", 2), dec(false, "0", 7), dec(false, "10", -1), dec(true, "1000", 3), dec(false, "25", 1), dec(false, "1", 0)];
-    for sweep in 0..(if thorough { 40 } else { 6 }) {
+    // form sweeps: EVERY overload of + - * applied to an operand that an earlier step of the same program COMPUTED and that
+    // carries a special representation: a one produced as 0.5 + 0.5 (1.0) or 2.5 * 0.4 (1.00), a zero produced as x - x
+    // (zero carrying a scale), a power of ten produced as 2.5 * 4 (10.0); once as left and once as right operand
+    for sweep in 0..(if thorough { 12 } else { 3 }) {
         for (op, fl) in [("mul", &fm), ("add", &fa), ("sub", &fs)] {
-            tr.reserve(fl.len() + 40);
-            tr.emit(json!({"op": "reset"}));
-            for r in 1..=NREG { tr.emit(json!({"op": "load", "dst": r, "a": specials[(r - 1 + sweep) % 6]})); }
-            // register 1 is re-loaded with a special every few steps so that products do not drift away from one / zero
             for (i, f) in fl.iter().enumerate() {
                 let (lk, rk) = form_kinds(f);
-                let a = 1 + (i + sweep) % NREG;
-                let b = 1 + (i / NREG + 2 * sweep) % NREG;
-                let av = if is_dec_kind(&lk) { json!({"r": a}) } else if lk.ends_with("bigint") { dec(i % 3 == 0, ["1", "7", "0", "10"][i % 4], 0) } else { dec(false, ["1", "2", "0", "10"][i % 4], 0) };
-                let bv = if is_dec_kind(&rk) { json!({"r": b}) } else if rk.ends_with("bigint") { dec(i % 5 == 0, ["7", "1", "10", "0"][i % 4], 0) } else { dec(false, ["2", "1", "10", "0"][i % 4], 0) };
-                let dst = if lk == "assign" { a } else { 1 + (i + 3) % NREG };
-                tr.emit(json!({"op": op, "form": f, "a": av, "b": bv, "dst": dst}));
-                if i % 9 == 8 {
-                    // keep the magnitudes small: normalise / reload
-                    tr.emit(json!({"op": "load", "dst": dst, "a": specials[(i + sweep) % 6]}));
+                tr.reserve(12);
+                tr.emit(json!({"op": "reset"}));
+                let other = dec(rng.gen_bool(0.5), &rand_digits(rng, 1 + (i + sweep) % 18), rng.gen_range(0..20));
+                tr.emit(json!({"op": "load", "dst": 4, "a": other}));
+                match (i + sweep) % 4 {
+                    0 => { tr.emit(json!({"op": "load", "dst": 1, "a": dec(false, "5", 1)}));
+                           tr.emit(json!({"op": "add", "form": "val_ref", "a": {"r": 1}, "b": {"r": 1}, "dst": 3})); }
+                    1 => { tr.emit(json!({"op": "load", "dst": 1, "a": dec(false, "25", 1)})); tr.emit(json!({"op": "load", "dst": 2, "a": dec(false, "4", 1)}));
+                           tr.emit(json!({"op": "mul", "form": "val_val", "a": {"r": 1}, "b": {"r": 2}, "dst": 3})); }
+                    2 => { tr.emit(json!({"op": "load", "dst": 1, "a": dec(rng.gen_bool(0.5), &rand_digits(rng, 3), rng.gen_range(1..24))}));
+                           tr.emit(json!({"op": "sub", "form": "ref_ref", "a": {"r": 1}, "b": {"r": 1}, "dst": 3})); }
+                    _ => { tr.emit(json!({"op": "load", "dst": 1, "a": dec(false, "25", 1)})); tr.emit(json!({"op": "load", "dst": 2, "a": dec(false, "4", 0)}));
+                           tr.emit(json!({"op": "mul", "form": "ref_val", "a": {"r": 1}, "b": {"r": 2}, "dst": 3})); }
                 }
+                let int_l = if lk.ends_with("bigint") { dec(i % 3 == 0, ["7", "1", "12", "0"][i % 4], 0) } else { dec(false, ["2", "1", "10", "0"][i % 4], 0) };
+                let int_r = if rk.ends_with("bigint") { dec(i % 5 == 0, ["7", "1", "12", "0"][(i + 1) % 4], 0) } else { dec(false, ["3", "1", "10", "0"][(i + 1) % 4], 0) };
+                // computed special on the left (right operand: the other register or a primitive), then on the right
+                if is_dec_kind(&lk) {
+                    let bv = if is_dec_kind(&rk) { json!({"r": 4}) } else { int_r.clone() };
+                    let dst = if lk == "assign" { 3 } else { 5 };
+                    tr.emit(json!({"op": op, "form": f, "a": {"r": 3}, "b": bv, "dst": dst}));
+                }
+                if is_dec_kind(&rk) && lk != "assign" {
+                    let av = if is_dec_kind(&lk) { json!({"r": 4}) } else { int_l.clone() };
+                    tr.emit(json!({"op": op, "form": f, "a": av, "b": {"r": 3}, "dst": 6}));
+                }
+                if i % 7 == 0 { tr.emit(json!({"op": "cmp", "form": "eq_val", "a": {"r": 5}, "b": {"r": 6}})); tr.emit(json!({"op": "hash", "a": {"r": 3}})); }
             }
         }
     }
